@@ -4,7 +4,9 @@
 // handlers + originstorage) with a tape-drawn configuration, <=6 digests whose
 // pre-image the harness knows (plus one digest nobody can produce content
 // for), 2-3 writer tasks pushing matching and non-matching bytes through every
-// public write path, and 1-3 reader tasks checking every public read path.
+// public write path, 1-2 reader tasks checking every public read path, and one
+// slow client whose handles (file reader, HTTP download, piece reader) stay
+// open across drain ticks, TTL expiry and later writes of other blobs.
 package c01
 
 import (
@@ -13,6 +15,7 @@ import (
 	"fmt"
 	"io"
 	"net/http"
+	"net/http/httptest"
 	"os"
 	"sort"
 	"strconv"
@@ -289,6 +292,17 @@ func (w *world) checkSize(path string, b *blob, size int64) {
 		w.s.Fail("wrong_size_served", "%s reports size %d under %s (true pre-image: %s)", path, size, short(b.hex), preDesc(b))
 	}
 	w.served(path, b)
+}
+
+// checkReaderSize judges FileReader.Size(), which has no error result: a
+// disk-backed reader stats the entry path and answers 0 once the entry was
+// deleted or evicted after the handle was opened.
+func (w *world) checkReaderSize(path string, b *blob, size int64) {
+	if size == 0 && !b.phantom && len(b.data) != 0 {
+		w.s.Probe("reader_size_zero_entry_gone")
+		return
+	}
+	w.checkSize(path, b, size)
 }
 
 func (w *world) checkMetaInfo(path string, b *blob, mi *core.MetaInfo) {
@@ -579,10 +593,10 @@ func (w *world) rdReader(b *blob) {
 		if _, serr := w.rig.cas.GetCacheFileStat(b.hex); serr != nil {
 			w.s.Probe("reader_size_unavailable_after_eviction")
 		} else {
-			w.checkSize("cache_file_reader_size", b, size)
+			w.checkReaderSize("cache_file_reader_size", b, size)
 		}
 	} else {
-		w.checkSize("cache_file_reader_size", b, size)
+		w.checkReaderSize("cache_file_reader_size", b, size)
 	}
 	if len(got) > 0 && w.tp.Chance(300) {
 		off := w.tp.Draw(len(got))
@@ -767,6 +781,247 @@ func (w *world) readerOp() {
 	}
 }
 
+// ---------------------------------------------------------------------------
+// long-lived readers: a handle obtained under digest A must return A's bytes
+// for its whole life, however long the client takes: across the drain of the
+// memory entry to disk, TTL expiry, eviction, and later writes of other blobs.
+
+var spans = []time.Duration{30 * ms, 120 * ms, 250 * ms, 450 * ms, 1200 * ms, 3 * time.Second, 35 * time.Second}
+
+func (w *world) checkRange(path string, b *blob, off int64, got []byte, age time.Duration) {
+	end := off + int64(len(got))
+	if b.phantom || off < 0 || end > int64(len(b.data)) || !bytes.Equal(got, b.data[off:end]) {
+		w.s.Fail("wrong_bytes_served", "%s: bytes [%d,%d) returned under %s by a handle opened %v ago differ from the true pre-image (%s); they hash to %s",
+			path, off, end, short(b.hex), age, preDesc(b), short(kit.SHA(got)))
+	}
+}
+
+// prime makes b a memory entry (a matching write through the memory path).
+func (w *world) prime(b *blob) {
+	if !w.cfg.MemoryCache.Enabled || b.phantom || !w.tp.Chance(600) {
+		return
+	}
+	b.validStarted = true
+	pl := w.pls[w.tp.Draw(len(w.pls))]
+	err := w.rig.cas.WriteBlobToCacheWithMetaInfo(b.hex, uint64(len(b.data)), func(fw store.FileReadWriter) error {
+		_, err := fw.Write(b.data)
+		return err
+	}, pl)
+	w.wrote("write_through", b, true, vCorrect, err)
+}
+
+// hold keeps the caller's handle open for a tape-drawn fake duration spanning
+// zero or more drain ticks, and may push another blob (one that fits the
+// buffer of b) through the memory path meanwhile.
+func (w *world) hold(b *blob) {
+	d := spans[w.tp.Draw(len(spans))] + time.Duration(w.tp.Draw(9))*ms
+	simrt.Sleep(d)
+	if !w.cfg.MemoryCache.Enabled || !w.tp.Chance(600) {
+		return
+	}
+	var cands []*blob
+	for _, o := range w.blobs {
+		if o != b && (o.phantom || len(o.data) <= len(b.data)) {
+			cands = append(cands, o)
+		}
+	}
+	if len(cands) == 0 {
+		cands = w.blobs
+	}
+	o := cands[w.tp.Draw(len(cands))]
+	if w.tp.Chance(300) {
+		w.opRefresh(o)
+		simrt.Sleep(time.Duration(1+w.tp.Draw(40)) * ms)
+	} else {
+		w.opWriteThrough(o)
+	}
+	if w.tp.Chance(300) {
+		simrt.Sleep(spans[w.tp.Draw(4)])
+	}
+}
+
+func (w *world) memState(b *blob) bool {
+	return w.cfg.MemoryCache.Enabled && w.rig.cas.CheckInMemCache(b.hex)
+}
+
+func (w *world) spanProbe(kind string, b *blob, wasInMem bool) {
+	if wasInMem {
+		w.s.Probe(kind + "_opened_on_memory_entry")
+		if !w.memState(b) {
+			w.s.Probe(kind + "_outlived_memory_entry")
+		}
+	}
+}
+
+func (w *world) rdLongReader(b *blob) {
+	w.nReads++
+	w.prime(b)
+	f, err := w.rig.cas.GetCacheFileReader(b.hex)
+	if err != nil {
+		w.s.Logf("long read %s -> err", short(b.hex))
+		return
+	}
+	defer f.Close()
+	t0 := w.s.Now()
+	inMem := w.memState(b)
+	w.checkReaderSize("long_reader_size", b, f.Size())
+	total := len(b.data)
+	k := w.tp.Draw(total + 1)
+	pre := make([]byte, k)
+	n, err := io.ReadFull(f, pre)
+	if err != nil && err != io.EOF && err != io.ErrUnexpectedEOF {
+		w.s.Logf("long read %s -> read err", short(b.hex))
+		return
+	}
+	w.checkRange("long_reader_prefix", b, 0, pre[:n], w.s.Now()-t0)
+	if n < k {
+		w.s.Fail("wrong_bytes_served", "long reader under %s hit EOF after %d bytes (true pre-image: %s)", short(b.hex), n, preDesc(b))
+	}
+	w.s.Logf("long read %s prefix %d/%d inmem=%v", short(b.hex), n, total, inMem)
+	w.hold(b)
+	rest, err := w.readAll(f)
+	if err != nil {
+		w.s.Logf("long read %s -> rest err", short(b.hex))
+		return
+	}
+	age := w.s.Now() - t0
+	w.checkRange("long_reader_rest", b, int64(n), rest, age)
+	if n+len(rest) != total {
+		w.s.Fail("wrong_bytes_served", "long reader under %s delivered %d bytes in total (true pre-image: %s)", short(b.hex), n+len(rest), preDesc(b))
+	}
+	// go back to ranges that were already delivered
+	if total > 0 {
+		off := w.tp.Draw(total)
+		p := make([]byte, 1+w.tp.Draw(total-off))
+		if m, err := f.ReadAt(p, int64(off)); err == nil || err == io.EOF {
+			w.checkRange("long_reader_readat", b, int64(off), p[:m], age)
+		}
+		if _, err := f.Seek(0, io.SeekStart); err == nil {
+			if again, err := io.ReadAll(f); err == nil {
+				w.checkRange("long_reader_reread", b, 0, again, age)
+				if len(again) != total {
+					w.s.Fail("wrong_bytes_served", "long reader under %s re-read %d bytes (true pre-image: %s)", short(b.hex), len(again), preDesc(b))
+				}
+			}
+		}
+	}
+	// FileReader.Size has no error result: a disk-backed reader stats the entry
+	// path and answers 0 once the entry was deleted or evicted.
+	if sz := f.Size(); sz == 0 && total != 0 {
+		w.s.Probe("reader_size_zero_entry_gone")
+	} else if sz != int64(total) {
+		w.s.Fail("wrong_size_served", "long reader under %s reports size %d after %v (true pre-image: %s)", short(b.hex), sz, age, preDesc(b))
+	}
+	w.s.Logf("long read %s done after %v", short(b.hex), age)
+	w.served("long_reader", b)
+	w.spanProbe("long_reader", b, inMem)
+}
+
+// slowResponse is a client connection that drains slowly: the handler's Write
+// blocks half-way (TCP back-pressure) and the rest of the slice it was given is
+// consumed only afterwards.
+type slowResponse struct {
+	w    *world
+	b    *blob
+	hdr  http.Header
+	code int
+	body []byte
+	held bool
+}
+
+func (r *slowResponse) Header() http.Header { return r.hdr }
+func (r *slowResponse) WriteHeader(c int) {
+	if r.code == 0 {
+		r.code = c
+	}
+}
+func (r *slowResponse) Write(p []byte) (int, error) {
+	if r.code == 0 {
+		r.code = http.StatusOK
+	}
+	if r.held || len(p) == 0 {
+		r.body = append(r.body, p...)
+		return len(p), nil
+	}
+	r.held = true
+	k := r.w.tp.Draw(len(p) + 1)
+	r.body = append(r.body, p[:k]...)
+	r.w.hold(r.b)
+	r.body = append(r.body, p[k:]...)
+	return len(p), nil
+}
+
+func (w *world) rdSlowHTTPBlob(b *blob) {
+	w.nReads++
+	w.prime(b)
+	inMem := w.memState(b)
+	rw := &slowResponse{w: w, b: b, hdr: http.Header{}}
+	req := httptest.NewRequest("GET", "/namespace/"+ns+"/blobs/"+digestPath(b), nil)
+	w.rig.handler.ServeHTTP(rw, req)
+	w.s.Logf("slow http get blob %s -> %d (%d bytes)", short(b.hex), rw.code, len(rw.body))
+	if rw.code == http.StatusOK {
+		w.checkBytes("slow_http_get_blob", b, rw.body)
+		if rw.held {
+			w.spanProbe("slow_http", b, inMem)
+		}
+	}
+}
+
+func (w *world) rdSlowPiece(b *blob) {
+	w.nReads++
+	w.prime(b)
+	t, err := w.arch.GetTorrent(ns, b.d)
+	if err != nil || t.NumPieces() == 0 {
+		w.s.Logf("slow piece %s -> no torrent", short(b.hex))
+		return
+	}
+	if b.phantom || t.Length() != int64(len(b.data)) {
+		w.s.Fail("wrong_size_served", "origin torrent under %s has length %d (true pre-image: %s)", short(b.hex), t.Length(), preDesc(b))
+	}
+	pi := w.tp.Draw(t.NumPieces())
+	pr, err := t.GetPieceReader(pi)
+	if err != nil {
+		return
+	}
+	defer pr.Close()
+	t0 := w.s.Now()
+	off := t.MaxPieceLength() * int64(pi)
+	plen := int(t.PieceLength(pi))
+	k := w.tp.Draw(plen + 1)
+	pre := make([]byte, k)
+	n, err := io.ReadFull(pr, pre) // the first Read opens the cache file
+	if err != nil && err != io.EOF && err != io.ErrUnexpectedEOF {
+		w.s.Logf("slow piece %s/%d -> err", short(b.hex), pi)
+		return
+	}
+	inMem := w.memState(b)
+	w.checkRange("slow_piece_prefix", b, off, pre[:n], 0)
+	w.hold(b)
+	rest, err := io.ReadAll(pr)
+	if err != nil {
+		return
+	}
+	w.checkRange("slow_piece_rest", b, off+int64(n), rest, w.s.Now()-t0)
+	if n+len(rest) != plen {
+		w.s.Fail("wrong_bytes_served", "piece %d of %s delivered %d bytes, declared %d", pi, short(b.hex), n+len(rest), plen)
+	}
+	w.s.Logf("slow piece %s/%d done", short(b.hex), pi)
+	w.served("slow_piece_reader", b)
+	w.spanProbe("slow_piece", b, inMem)
+}
+
+func (w *world) longReaderOp() {
+	b := w.pickBlob()
+	switch w.tp.Draw(4) {
+	case 0, 1:
+		w.rdLongReader(b)
+	case 2:
+		w.rdSlowHTTPBlob(b)
+	case 3:
+		w.rdSlowPiece(b)
+	}
+}
+
 func (w *world) sweep() {
 	for _, b := range w.blobs {
 		w.rdReader(b)
@@ -867,7 +1122,8 @@ func body(s *simrt.Sim, tier string) {
 	w.arch = originstorage.NewTorrentArchive(r.cas, r.refresher)
 
 	nWriters := 2 + tp.Draw(2)
-	nReaders := 1 + tp.Draw(3)
+	nReaders := 1 + tp.Draw(2)
+	nLong := 1 // one client that is slow to consume what it opened
 	nOps := 3 + tp.Draw(5)
 	if tier == "thorough" {
 		nOps += tp.Draw(6)
@@ -893,6 +1149,16 @@ func body(s *simrt.Sim, tier string) {
 			}
 		})
 	}
+	for i := 0; i < nLong; i++ {
+		wg.Add(1)
+		simrt.Go(func() {
+			defer wg.Done()
+			for k := 0; k < 2+nOps/2; k++ {
+				w.pause()
+				w.longReaderOp()
+			}
+		})
+	}
 	wg.Wait()
 	// reads before, during and after the drain of whatever is still in memory
 	w.sweep()
@@ -906,7 +1172,7 @@ func body(s *simrt.Sim, tier string) {
 	r.cas.Close()
 	kit.SetSample(map[string]any{
 		"memory_cache": fmt.Sprintf("%+v", cfg.MemoryCache), "capacity": cfg.Capacity, "read_part": cfg.ReadPartSize,
-		"piece_lengths": w.pls, "piece_threshold": thr, "digests": len(w.blobs), "writers": nWriters, "readers": nReaders,
+		"piece_lengths": w.pls, "piece_threshold": thr, "digests": len(w.blobs), "writers": nWriters, "readers": nReaders, "slow_readers": nLong,
 		"ops_per_task": nOps, "writes": w.nWrites, "reads": w.nReads, "successful_reads": w.nServed,
 	})
 }
@@ -925,7 +1191,7 @@ func TestC01(t *testing.T) {
 		Stub: []string{"backend.Client (adversarial: stream correct/corrupted/truncated/extended/empty/foreign, error mid-stream, Stat size may lie)",
 			"hashring.Ring (single origin, no replicas)", "blobclient providers (never called)", "persistedretry.Manager (in-memory)",
 			"HTTP transport: requests are delivered to Server.Handler().ServeHTTP with httptest (no sockets)"},
-		Rule: "one run = tape-drawn store config (memory cache off/on, MaxSize below one blob..above all, TTL, drain workers 1-4, retries, LRU capacity, part sizes), 1-5 digests with known pre-image + 1 digest without, 2-3 writer and 1-3 reader tasks, tape-drawn op kinds, byte-stream variants, backend behaviour, sleeps around the 100ms drain tick, scheduling strategy",
+		Rule: "one run = tape-drawn store config (memory cache off/on, MaxSize below one blob..above all, TTL, drain workers 1-4, retries, LRU capacity, part sizes), 1-5 digests with known pre-image + 1 digest without, 2-3 writer, 1-2 reader and 1 slow-client task (handles held open across drain ticks / TTL / later memory-path writes), tape-drawn op kinds, byte-stream variants, backend behaviour, sleeps around the 100ms drain tick, scheduling strategy",
 		Assumptions: []string{"sha256 collisions do not occur", "readers are judged only on successful reads; a failing read is always acceptable",
 			"a backend stream that delivered the complete true pre-image and then reported an error counts as a valid write attempt (the store may keep or drop it)"},
 	})
